@@ -78,6 +78,8 @@ def step(regs, h, ids, k):
             res = d + {c: untag(v, ids) for c, v in h['rec']}
         elif op == 'Copy':
             res = d.copy()
+        elif op == 'NoFilter':
+            res = [d.inc(), d.exc(), d.inc({}), d.inc(**{})][(k + (h.get('f') == 'exc')) % 4] if 'f' not in h else (d.inc() if h['f'] == 'inc' else d.exc())
         elif op == 'AddNone':
             res = d + None
         elif op == 'ConcatOne':
@@ -190,7 +192,7 @@ def rand_event(rng, regs):
         n = 0
     cols = list(dict.keys(d))
     rd = rng.choice(['r1', 'r2', 'r3'])
-    op = rng.choice(['SetCol', 'SetCol', 'DelCol', 'Update', 'Slice', 'Slice', 'Mask', 'Take', 'Project', 'Derive', 'Do', 'Rename', 'Concat', 'AddRecord', 'Copy', 'AddNone', 'ConcatOne'])
+    op = rng.choice(['SetCol', 'SetCol', 'DelCol', 'Update', 'Slice', 'Slice', 'Mask', 'Take', 'Project', 'Derive', 'Do', 'Rename', 'Concat', 'AddRecord', 'Copy', 'NoFilter', 'AddNone', 'ConcatOne'])
     def colarg():
         q = rng.random()
         if q < 0.3: return ['s', val()]
@@ -229,6 +231,8 @@ def rand_event(rng, regs):
         return {'op': op, 'ra': r, 'rb': rng.choice(live), 'rd': rd}
     if op == 'AddRecord':
         return {'op': op, 'r': r, 'rd': rd, 'rec': [[c, val()] for c in rng.sample(COLS, rng.choice([1, 2]))]}
+    if op == 'NoFilter':
+        return {'op': op, 'r': r, 'rd': rd, 'f': rng.choice(['inc', 'exc'])}
     return {'op': op, 'r': r, 'rd': rd}
 
 
